@@ -989,6 +989,10 @@ def Rating (score : Nat) : ((List Nat) × Go.Err) :=
 def const_header : List Nat :=
   ([67, 86, 83, 83, 58, 51, 46, 48, 47] : List Nat)
 
+/-- import paths of the package's source files (alias=path when renamed) -/
+def pkg_imports : List String :=
+  ["errors", "fmt", "math", "strings", "unsafe"]
+
 /-- fields of the object type (name:type), in declaration order -/
 def obj_fields : List String :=
   ["u0:uint8", "u1:uint8", "u2:uint8", "u3:uint8", "u4:uint8", "u5:uint8"]
